@@ -13,8 +13,6 @@
 (***************************************************************************)
 EXTENDS CopyTo
 
-Front(s) == SubSeq(s, 1, Len(s) - 1)
-
 RECURSIVE SetPath(_, _, _)
 SetPath(obj, gp, val) ==
   IF gp = <<>> THEN val
@@ -117,7 +115,7 @@ FromCollField(F, tf, acc) ==
         LET n == IF Known(a) \/ Q("makeBeforeNullGuard") THEN Len(a.elems) ELSE 0
             rs == [i \in 1..n |-> FromElem(F, a.elems[i])]
             es == IF Known(a) THEN [i \in 1..n |-> IF rs[i].ok THEN rs[i].v ELSE ElemZero(F)]
-                  ELSE SeqOf(n, ElemZero(F))
+                  ELSE Fill(n, ElemZero(F))
         IN [obj |-> SetPath(acc.obj, F.gopath, SeqV(es)),
             dg |-> IF Known(a) THEN acc.dg \o ConcatDg(rs, [i \in 1..n |-> i]) ELSE acc.dg,
             pn |-> Known(a) /\ \E i \in 1..n : rs[i].pn]
